@@ -223,12 +223,12 @@ HINT_ELEMENT_END = r'''proof {
                 '''
 HINT_WM_END = r'''proof {
                     assert forall|k: int| 0 <= k < self.ws@.len() implies #[trigger] self.slot_ok(k) by {
-                        assert(mid.slot_ok(k + @{partition_point_var} as int));
-                        if k > 0 { assert(mid.slot_ok(k - 1 + @{partition_point_var} as int)); }
+                        assert(mid.slot_ok(k + §partition_point_var§ as int));
+                        if k > 0 { assert(mid.slot_ok(k - 1 + §partition_point_var§ as int)); }
                     }
-                    if (@{partition_point_var} as int) < mid.ws@.len() { assert(mid.ws@[@{partition_point_var} as int].end >= ts); }
-                    assert forall|i: int| 0 <= i < self.ws@.len() implies (#[trigger] self.ws@[i]).end >= mid.ws@[@{partition_point_var} as int].end by { if i > 0 { mid.lemma_mono(@{partition_point_var} as int, i + @{partition_point_var} as int); } }
-                    assert(fired(old(self).ws@, @{partition_point_var} as int) == __out@);
+                    if (§partition_point_var§ as int) < mid.ws@.len() { assert(mid.ws@[§partition_point_var§ as int].end >= ts); }
+                    assert forall|i: int| 0 <= i < self.ws@.len() implies (#[trigger] self.ws@[i]).end >= mid.ws@[§partition_point_var§ as int].end by { if i > 0 { mid.lemma_mono(§partition_point_var§ as int, i + §partition_point_var§ as int); } }
+                    assert(fired(old(self).ws@, §partition_point_var§ as int) == __out@);
                 }
             '''
 FIRED = r'''
@@ -293,14 +293,14 @@ def build(x):
     pr.insert_after('/*@foreach_end*/', '\n                ' + HINT_ELEMENT_END)
     pr.insert_after('self.last_watermark = Some(ts);', '\n                let ghost mid = *self;\n                proof { mid.lemma_inv_raise_watermark(old(self)); mid.lemma_all_mono(); }')
     pr.add_loop_spec(3, r'''
-            invariant @{partition_point_var} <= self.ws@.len(), *self == mid,
-                forall|k: int| 0 <= k < @{partition_point_var} ==> (#[trigger] self.ws@[k]).end <= ts,
-            decreases self.ws@.len() - @{partition_point_var},
+            invariant §partition_point_var§ <= self.ws@.len(), *self == mid,
+                forall|k: int| 0 <= k < §partition_point_var§ ==> (#[trigger] self.ws@[k]).end <= ts,
+            decreases self.ws@.len() - §partition_point_var§,
 ''')
     pr.add_loop_spec(4, r'''
-                invariant __j <= @{partition_point_var} <= mid.ws@.len(), self.ws@ =~= mid.ws@.skip(__j as int), __out@ == fired(mid.ws@, __j as int),
+                invariant __j <= §partition_point_var§ <= mid.ws@.len(), self.ws@ =~= mid.ws@.skip(__j as int), __out@ == fired(mid.ws@, __j as int),
                     self.same_params(&mid), self.last_watermark == mid.last_watermark,
-                decreases @{partition_point_var} - __j,
+                decreases §partition_point_var§ - __j,
 ''')
     pr.insert_after('/*@drain_end*/', '\n            ' + HINT_WM_END, nth=1)
     pr.add_loop_spec(5, r'''
